@@ -107,8 +107,8 @@ func getWalkRT() (*walkRT, error) {
 // ---- export of a Go AST into the generic tree ------------------------------------------------------
 
 type xnode struct {
-	rank     []int   // position in the order in which walk.go's arms visit (used only to tell apart
-	                 // several occurrences of ONE Go object, e.g. the shared *Var of `a = a`)
+	rank []int // position in the order in which walk.go's arms visit (used only to tell apart
+	// several occurrences of ONE Go object, e.g. the shared *Var of `a = a`)
 	path     []int64 // flattened (field, index) pairs
 	ty       int
 	ptr      unsafe.Pointer
@@ -671,8 +671,8 @@ func walkImpl(c Case) []int64 {
 
 // programs that together contain every node type (checked by the oracle on every run)
 var walkCorpus = []string{
-	"class A{[x+y](){} #p=1}", // D16
-	"({[z](){}})",             // D16
+	"class A{[x+y](){} #p=1}",  // D16
+	"({[z](){}})",              // D16
 	"class A { a = 1; b = 2 }", // fixed 3931a8d: *Field was the address of a loop-variable copy
 	"x.y = i",                  // DotExpr.Y is a LiteralExpr VALUE
 	"if(a);else b",
